@@ -26,7 +26,7 @@ Definition in_source (src : str) (root : tree) : Prop := (N.to_nat (tend root) <
 (* if the pattern matches some node of the document, the prefilter keeps the file *)
 Definition C01_prefilter_stmt : Prop :=
   forall src root p t e e',
-    pwf (p_node p) = true -> wfb root = true -> in_source src root ->
+    wfb root = true -> in_source src root ->
     In t (preorder root) ->
     unnamed_by_kind src (p_node p) t ->
     pattern_match src p t e = Matched e' ->
